@@ -25,6 +25,11 @@ D. histories: TLC enumerates all histories over the abstract document classes of
    are validated by TLC against the reference model (Deviations = {}); a rejected history is a
    KNOWN-FINDING only if it lies in the domain of an open finding and TLC accepts it under exactly that
    deviation (as-built model), otherwise a VIOLATION.
+E. controlled interleavings of two AES-encrypted PDFs (yield points: CryptAES init/decrypt of the fallback, via
+   sys.monitoring) - each thread's digest must equal its isolated one; GlobalsRoundKeys.tla: the shared round-key
+   LRU cache, witness schedule replayed on the real _get_round_keys and validated by TLC (KF-C15-02 while open).
+   History `by-format`: per format refused inputs first, then every healthy document twice (state that outlives a
+   parser / reader instance).
 """
 from __future__ import annotations
 
@@ -46,6 +51,9 @@ from ..tlc import MachineryError, run_tlc
 from ..traces import validate
 
 KF_AES = "KF-C15-01"
+KF_RK = "KF-C15-02"
+RK_CONST = "CONSTANTS Threads = {1,2}\n Keys = {1,2,3,4,5,6}\n Cap = 4\n Calls = 2\n Deviations = {%s}\n"    # traces
+RK_MODEL = "CONSTANTS Threads = {1,2}\n Keys = {1,2,3}\n Cap = 2\n Calls = 3\n Deviations = {%s}\n"          # theorem
 PS_CONST = ("CONSTANTS Threads = {%s}\n Calls = %d\n UseLock = %s\n RestoreOnRaise = %s\n"
             " BodyMayRaise = %s\n TrackSched = %s\n")
 # glyph-id sets of one font in subset / superset / overlapping / disjoint relation
@@ -114,6 +122,10 @@ def run(ctx):
                                     scratch=sc, expect_fail=True, workers=1),
         "gl_reg": lambda: run_tlc("Globals", _gl_cfg(["RegistryFilledBySerialize"], 3, ("HistoryIndependent",)),
                                   scratch=sc, expect_fail=True, workers=1),
+        "rk_ref": lambda: run_tlc("GlobalsRoundKeys", "SPECIFICATION Spec\n" + RK_MODEL % "" +
+                                  "INVARIANT NoError\nINVARIANT TypeOK\n", scratch=sc, workers=2),
+        "rk_dev": lambda: run_tlc("GlobalsRoundKeys", "SPECIFICATION Spec\n" + RK_MODEL % '"UnguardedMoveToEnd"' +
+                                  "INVARIANT NoError\n", scratch=sc, expect_fail=True, workers=2),
         "gl_aes": lambda: run_tlc("Globals", _gl_cfg(["PermanentAesPatch", "AesPatchOnlyOnOpenFailure"], 3,
                                                      ("HistoryIndependent",)),
                                   scratch=sc, expect_fail=True, workers=1),
@@ -147,6 +159,13 @@ def run(ctx):
         ev.tlc("sensitivity " + note, res[n], note="expected violation")
         if res[n].violated != inv:
             raise MachineryError(f"sensitivity run {n} did not fail on {inv}: invariant is vacuous")
+    ev.tlc("GlobalsRoundKeys (guarded LRU update): NoError, 2 threads x 3 calls x 3 keys, capacity 2", res["rk_ref"])
+    if res["rk_ref"].violated:
+        v.violation(what=f"GlobalsRoundKeys: {res['rk_ref'].violated} violated on the reference design",
+                    observed=res["rk_ref"].trace[-3:])
+    ev.tlc("sensitivity UnguardedMoveToEnd: NoError must fail", res["rk_dev"], note="expected violation")
+    if res["rk_dev"].violated != "NoError":
+        raise MachineryError("sensitivity run rk_dev did not fail on NoError")
     ev.tlc("Globals Deviations={}: HistoryIndependent, ResidueFree on all histories of length <= 3", res["gl_ref"])
     if res["gl_ref"].violated:
         v.violation(what=f"Globals: {res['gl_ref'].violated} violated on the reference design",
@@ -213,6 +232,13 @@ def run(ctx):
     for name, data in c15_docs.escaping_7z_docs(_abs_dir(sc / "docs.json")).items():   # stream-less entries that
         (docdir / name).write_bytes(data)                                               # name a place outside
         docs["gen:" + name] = {"path": str(docdir / name), "cls": "plain", "f": "", "g": []}
+    round4 = dict(c15_docs.markup_docs())                      # sloppy / clean html, mhtml, epub
+    round4.update(c15_docs.repacked_variants(res_root))        # second documents sharing all part names
+    round4["enc-header.7z"] = c15_docs.make_7z_encrypted_header()      # refused: header flagged 7zAES
+    round4["unsupported.xyz"] = b"no extractor for this\n"
+    for name, data in round4.items():
+        (docdir / name).write_bytes(data)
+        docs["gen:" + name] = {"path": str(docdir / name), "cls": "plain", "f": "", "g": []}
     for tag, path in sorted(c15_docs.make_stored_json(docdir, res_root).items()):      # stored extractions
         docs["deser:" + tag] = {"path": str(path), "cls": "deser", "f": tag, "g": []}
     for f in FONT_UNIVERSE["fonts"]:
@@ -224,6 +250,8 @@ def run(ctx):
     if aes:
         docs["aesT"] = {"path": str(aes["aes256"]), "cls": "aesT", "f": "", "g": []}
         docs["aesU"] = {"path": str(aes["aes128"]), "cls": "aesU", "f": "", "g": []}
+        for k_, p_ in sorted(c15_docs.make_aes_image_pdfs(docdir, res_root).items()):
+            docs[k_] = {"path": str(p_), "cls": "aesU", "f": "", "g": []}      # AES-128, page with image XObjects
     else:
         ev.assume("pypdf does not run on its fallback crypto provider here: AES history classes not exercised")
     (sc / "docs.json").write_text(json.dumps(docs))
@@ -245,9 +273,14 @@ def run(ctx):
                     for i in range(nproc)]
         f_stress = [ex.submit(_spawn, ["stress", sc / f"stress-{i}.in.json", sc / f"stress-{i}.out.json"])
                     for i in range(n_stress)]
+        f_aes = None
+        if "aesimg1" in docs and not partial:
+            (sc / "aes.in.json").write_text(json.dumps({"seed": ctx.seed, "random": 8 if ctx.thorough else 2,
+                                                        "docs": [docs["aesimg1"]["path"], docs["aesimg2"]["path"]]}))
+            f_aes = ex.submit(_spawn, ["aes", sc / "aes.in.json", sc / "aes.out.json"])
         f_base = [ex.submit(_spawn, ["base", sc / "docs.json", d, sc / f"tmp-base-{i}"])
                   for i, d in enumerate(doc_ids)]
-        for f in f_replay + f_stress:
+        for f in f_replay + f_stress + ([f_aes] if f_aes else []):
             f.result()
         base_out = [json.loads(f.result().stdout.strip().splitlines()[-1]) for f in f_base]
     lap("replay, stress and baseline workers")
@@ -345,6 +378,53 @@ def run(ctx):
     if s_traces:
         ev.sample({"stress": s_traces[0]["id"], "events": len(s_traces[0]["ev"]), "first": s_traces[0]["ev"][:8]})
 
+    # ---- C2: controlled interleavings of two AES extractions + the round-key cache witness
+    if f_aes is not None:
+        ao = json.loads((sc / "aes.out.json").read_text())
+        a_traces = [{"id": f"aes-{r_['name']}", "hdr": {"k": 2}, "ev": r_["events"]} for r_ in ao["runs"]]
+        br = validate("PatchSectionTrace", tr_cfg, a_traces, scratch=sc, parallel=2, min_chunk=1, diagnose=2)
+        ev.tlc_counts("PatchSectionTrace: patch-section events of the AES interleavings", br.distinct, br.states, br.wall_s)
+        for r_, tv in zip(ao["runs"], br.verdicts):
+            case = {"aes_schedule": r_["name"], "docs": ["aesimg1", "aesimg2"]}
+            if not tv.accepted:
+                v.violation(what=f"AES interleaving {r_['name']}: patch-section events are not a behaviour of "
+                                 f"PatchSection with the lock (event {max(tv.reached, 0) + 1})", case=case,
+                            observed=r_["events"][max(0, tv.reached - 4): tv.reached + 2], where="pdf_extractor.py")
+            if r_["note"] or r_["errors"]:
+                v.violation(what=f"AES interleaving {r_['name']}: {r_['note']} {r_['errors'][:2]}", case=case)
+            bad = [(t_, s_) for t_, s_ in sorted(r_["sigs"].items()) if s_ != baseline[f"aesimg{t_}"]["sig"]]
+            if bad:
+                v.violation(what=f"two AES-encrypted PDFs extracted in two threads, schedule {r_['name']} over the "
+                                 f"CryptAES init/decrypt steps ({r_['ops']} steps): thread {bad[0][0]} gets "
+                                 f"{bad[0][1][:90]} instead of its isolated result: AES state shared between threads",
+                            case=case, expected=baseline[f"aesimg{bad[0][0]}"]["sig"], observed=bad[0][1],
+                            where="pdf/_pypdf_aes_fallback.py:patch_pypdf_fallback_aes (CryptAES)")
+            elif tv.accepted and not (r_["note"] or r_["errors"]):
+                v.ok(2)
+                ev.nontrivial(("aes", r_["name"]))
+        ev.replayed(len(a_traces))
+        # round-key cache: witness schedule (A stopped between lookup and move_to_end, B evicts A's key)
+        wt = [{"id": "roundkey-witness", "hdr": {"k": 2}, "ev": ao["witness"]["events"]}]
+        rk_t = "SPECIFICATION TraceSpec\nCONSTRAINT TraceAccept\n"
+        b0 = validate("GlobalsRoundKeys", rk_t + RK_CONST % "", wt, scratch=sc, parallel=1, min_chunk=1, diagnose=1)
+        ev.tlc_counts("GlobalsRoundKeys trace validation (reference)", b0.distinct, b0.states, b0.wall_s)
+        if b0.verdicts[0].accepted:
+            v.ok(1)
+        else:
+            b1 = validate("GlobalsRoundKeys", rk_t + RK_CONST % '"UnguardedMoveToEnd"', wt, scratch=sc, parallel=1,
+                          min_chunk=1, diagnose=1)
+            ev.tlc_counts("GlobalsRoundKeys trace validation (as-built: UnguardedMoveToEnd)", b1.distinct, b1.states,
+                          b1.wall_s)
+            what = (f"_get_round_keys: thread 1 stopped between the cache lookup and move_to_end, thread 2 inserts 5 "
+                    f"keys (capacity 4), thread 1 resumes: {ao['witness']['error']}")
+            if b1.verdicts[0].accepted:
+                v.known(KF_RK, what, case={"witness": "roundkey"})
+            else:
+                v.violation(what=what + " (not the as-built model's behaviour either)", case={"witness": "roundkey"},
+                            observed=ao["witness"]["events"], where="pdf/_pypdf_aes_fallback.py:_get_round_keys")
+        ev.replayed(1)
+        ev.sample({"roundkey_witness": ao["witness"]["events"]})
+        lap("AES interleavings and round-key witness")
     lap("stress traces validated")
     # ---------------------------------------------------------------- D. histories
     r = res["gl_enum"]
@@ -390,6 +470,25 @@ def run(ctx):
             if deser_pool and n % 7 == 3:
                 mixed.append(deser_pool[(n // 7 + i) % len(deser_pool)])
         hjobs.append({"id": f"order-{i}", "docs": mixed})
+    if not partial:
+        # by format: every REFUSED / failing input of a format first, then every healthy document of that format
+        # twice in a row (generated sloppy / variant documents before the fixtures); thorough: a second pass
+        # with the refused ones again between.  State that outlives one parser / reader instance (class-level
+        # attributes, mutable defaults, module tables) shows as a result different from the isolated one.
+        def fmt(d):
+            n = docs[d]["path"].lower()
+            return ".tar.gz" if n.endswith(".tar.gz") else os.path.splitext(n)[1]
+        groups = {}
+        for d in everything:
+            groups.setdefault(fmt(d), []).append(d)
+        ids = []
+        for e in sorted(groups):
+            bad = [d for d in groups[e] if docs[d]["cls"] == "fail"]
+            good = sorted((d for d in groups[e] if docs[d]["cls"] != "fail"), key=lambda d: (not d.startswith("gen:"), d))
+            ids += bad + [x for d in good for x in (d, d)]
+            if ctx.thorough:
+                ids += bad + good
+        hjobs.append({"id": "by-format", "docs": ids})
     (sc / "docs.json").write_text(json.dumps(docs))
     with ThreadPoolExecutor(nproc + 4) as ex:
         fs = []
@@ -445,7 +544,7 @@ def run(ctx):
                 out_ = "ok" if not x["exc"] else "fail"
             elif did in ("aesT", "aesU"):
                 out_ = "ok" if not x["exc"] else ("fail" if x["exc"] == "ExtractionFailedError" else x["exc"])
-            elif d["cls"] == "aesT":                   # a fixture that triggers the patch: only "as isolated" is known
+            elif d["cls"] in ("aesT", "aesU"):         # fixture / image PDF using the patch: only "as isolated" is known
                 out_ = "ok" if same else "differs"
             elif d["cls"] == "deser":                  # sig = OK:<restored type>:<digest>
                 out_ = "same" if same else ("raw" if x["sig"].split(":")[1:2] != baseline[did]["sig"].split(":")[1:2]
@@ -798,6 +897,63 @@ def _worker_stress(inp, out):
     Path(out).write_text(json.dumps(res))
 
 
+def _worker_aes(inp, out):
+    _quiet()
+    job = json.loads(Path(inp).read_text())
+    from ..c15_sched import AesHarness, CodeHooks, JobScheduler
+    rng = random.Random(job["seed"] * 31 + 4)
+    runs = []
+    with AesHarness() as h:
+        import sharepoint2text  # noqa
+        jobs = [lambda p=p: _signature(p)[0] for p in job["docs"]]
+        choosers = [("alternate-1", lambda n, live, last: live[n % len(live)]),
+                    ("alternate-2", lambda n, live, last: live[(n + 1) % len(live)]),
+                    ("pairs", lambda n, live, last: live[(n // 2) % len(live)])]
+        for i in range(job["random"]):
+            choosers.append((f"random-{i}", lambda n, live, last: rng.choice(live)))
+        for name, ch in choosers:
+            res, errs, evs, ops, note = h.run(jobs, ch)
+            runs.append({"name": name, "sigs": {str(t): s_ for t, s_ in res.items()}, "errors": [list(e) for e in errs],
+                         "events": evs, "ops": len(ops), "note": note})
+        # witness for the round-key cache: real threads through the real _get_round_keys
+        fb = h.fb
+        fb._ROUND_KEY_CACHE.clear()
+        keys = {i: bytes([i]) * 16 for i in range(1, 7)}
+        events = []
+
+        def a_job():
+            fb._get_round_keys(keys[1])
+            events.append({"a": "Call", "t": 1, "k": 1})
+            fb._get_round_keys(keys[1])                   # hit: stopped before move_to_end
+            return True
+
+        def b_job():
+            for i in range(2, 7):
+                fb._get_round_keys(keys[i])
+                events.append({"a": "Call", "t": 2, "k": i})
+            return True
+        s = JobScheduler(h.rec, [a_job, b_job], visible_extra=("Start", "RkMove"))
+        hooks = CodeHooks()
+        hooks.on_line(fb._get_round_keys.__code__, CodeHooks.line_of(fb._get_round_keys, "move_to_end("),
+                      s.hook_park("RkMove"))
+        with hooks:
+            s.start()
+            s.step(1)
+            if s.pending.get(1) != ("RkMove",):
+                raise MachineryError("witness: thread 1 did not stop before move_to_end")
+            events.append({"a": "Hit", "t": 1, "k": 1})
+            s.step(2)
+            s.step(1)
+            s.drain()
+            s.finish()
+        err = [e for t_, e in s.errors if t_ == 1]
+        if [e for t_, e in s.errors if t_ != 1] or (err and "KeyError" not in err[0]):
+            raise MachineryError(f"witness run failed unexpectedly: {s.errors}")
+        events.append({"a": "Return", "t": 1, "err": bool(err)})
+        fb._ROUND_KEY_CACHE.clear()
+    Path(out).write_text(json.dumps({"runs": runs, "witness": {"events": events, "error": err[0] if err else "no error"}}))
+
+
 if __name__ == "__main__":
     cmd = sys.argv[1]
     if cmd == "replay":
@@ -806,5 +962,7 @@ if __name__ == "__main__":
         _worker_base(*sys.argv[2:5])
     elif cmd == "hist":
         _worker_hist(*sys.argv[2:6])
+    elif cmd == "aes":
+        _worker_aes(*sys.argv[2:4])
     elif cmd == "stress":
         _worker_stress(*sys.argv[2:4])
